@@ -49,7 +49,8 @@ class C05(Check):
     level_text = ('Lean theorems over the model of _iter_chunked (byte-wise size-line scanner with its flags and '
                   'buffer bound, int(x,16) grammar, payload loop, CRLF check) for all encodings, schedules and '
                   'buffers: exact decoding of every legal encoding, rejection of every strict prefix and of a '
-                  'missing CRLF, totality (only acceptance, BodyParsingError or BodySizeError), 4xx via the '
+                  'missing CRLF, totality (only acceptance, BodyParsingError or BodySizeError), a rejected body '
+                  'stays rejected over every later access on the request, canonical hex spellings are legal, 4xx via the '
                   'generated errors_map; model tied to the code by a differential run through _body_read and WSGI.')
     level_note_extra = 'a size line longer than the buffer is rejected by design (resource bound), proved as such'
     rule = ('chunk lists (sizes 1..40, upper/lower hex, leading zeros, extensions, trailers) x buffer x read '
